@@ -115,6 +115,15 @@ CATALOGUE = [
     K("rad50-invalid-character", "compile", "error", ".rad50 ⟦/a!b/⟧", "invalid-character"),
     K("rad50-code-too-big", "compile", "error", ".rad50 /a/⟦<50>⟧", "value-out-of-bounds"),
     K("ascii-code-too-big", "compile", "error", ".ascii /a/<⟦400⟧>", "value-out-of-bounds"),
+    # a self-reporting operator UNDER the root of an index operand: 'a+b/0(r1)' is re-read as '(a+b/0)(r1)' and the rebuilt inner
+    # token must keep its own start
+    K("hoisted-inner-division-by-zero", "compile", "error", "mov 2+⟦4/0⟧(r1), r0", "arithmetic-error"),
+    K("hoisted-deferred-division-by-zero", "compile", "error", "clr @⟦4/0⟧(r1)", "arithmetic-error"),
+    K("hoisted-inner-negative-shift", "compile", "error", "mov 2+<⟦1 << -1⟧>(r1), r0", "arithmetic-error"),
+    K("hoisted-inner-lazy-modulo", "link", "error", "mov hz{u} + ⟦6 % hq{u}⟧(r2), r0", "arithmetic-error", post=("hq{u} = 0", "hz{u} = 2")),
+    # 'name (expr)' with a defined name is re-read as the implicit word list '.word name(expr)': the call starts at the name
+    K("constant-called-implicit-word", "compile", "error", "⟦cv{u} (5)⟧", "unexpected-value", pre=("cv{u} = 6",)),
+    K("constant-called-implicit-word-tab", "compile", "error", "⟦cw{u}\t(5)⟧", "unexpected-value", pre=("cw{u} = 6",)),
     # a '<code>' chunk behind blanks or a tab: the chunk starts at its '<', not at the blank behind the previous chunk
     K("rad50-code-too-big-after-blanks", "compile", "error", ".rad50 /a/  ⟦<50>⟧", "value-out-of-bounds"),
     K("rad50-code-too-big-after-tab", "compile", "error", ".rad50 /ab/\t⟦<51>⟧/c/", "value-out-of-bounds"),
